@@ -216,6 +216,31 @@ def gen_mep_related_load(ck, W):
     return {"kind": "MEP", "line": line, "gen": "related-load"}
 
 
+def gen_mep_cse_constants(ck, W):
+    """cse() on programs whose constants are equal / equal under < and == but
+    bitwise different (+0.0, -0.0) / one ulp apart: only bitwise identical
+    constants may be merged, and the signature cached before cse() must stay
+    the signature of the optimised individual"""
+    rng = ck.rng
+    C0 = next(s for s in W.by_set[1] if s.par)
+    funs = [s for s in W.by_set[1] if len(s.argcats) >= 2]
+    rows = rng.randrange(4, 9)
+    pairs = [("0000000000000000", "8000000000000000"), ("8000000000000000", "0000000000000000"),
+             ("3ff0000000000000", "3ff0000000000001"), ("3ff0000000000000", "3ff0000000000000"),
+             ("0000000000000000", "0000000000000000"), ("0000000000000001", "0000000000000000")]
+    ncats, bx, cx = full_genome(W, rng, 1, rows)
+    _, by, cy = full_genome(W, rng, 1, rows)
+    a, b = rng.choice(pairs)
+    r1, r2 = rng.sample(range(1, rows), 2)
+    cx[(r1, 0)] = gene_tok(C0, a, [])
+    cx[(r2, 0)] = gene_tok(C0, b, [])
+    f = rng.choice(funs)
+    cx[(0, 0)] = gene_tok(f, None, [rng.choice([r1, r2]) for _ in f.argcats][:-2] + [r1, r2])
+    ops = rng.choice([["S", "C", "S"], ["C", "S"], ["S", "C", "S", "C", "S"], ["S", "C", "M", "300", str(rng.randrange(1 << 30)), "S"]])
+    line = "MEP 1 %d | %s | %s | %s" % (rows, cells_str((0, 0), cx), cells_str(by, cy), " ".join(ops))
+    return {"kind": "MEP", "line": line, "gen": "cse-constants"}
+
+
 def gen_de_related_load(ck):
     rng = ck.rng
     n = rng.randrange(1, 6)
@@ -256,7 +281,7 @@ def gen_mep_history(ck, W, known=False):
     _, by, cy = full_genome(W, rng, sset, rows)
     ops = []
     n = rng.randrange(3, 11)
-    choices = ["S", "S", "SY", "R", "B", "D", "M", "M", "X", "X", "L", "LY", "LF", "LB", "LU", "A"] + (["C"] if ncats == 1 else [])
+    choices = ["S", "S", "SY", "R", "B", "D", "M", "M", "X", "X", "L", "LY", "LF", "LB", "LU", "A", "C", "C"]
     for _ in range(n):
         o = rng.choice(choices)
         if o == "R":
@@ -475,7 +500,7 @@ def model_line(case, recs):
                 x = nx; i += 4
             elif o == "C":
                 x = parse_content(rec["G"])
-                out += ["C", rec["G"]]; i += 1
+                out.append("C"); i += 1      # the model computes cse() itself
             elif o in ("L", "LY", "LF", "LB", "LU"):
                 # every load is the same model step: the parsed content (or a failure)
                 if rec["ret"] == "ok=1":
@@ -644,6 +669,10 @@ def oracle(case, recs):
             bad.append(("%s:%s:stale-signature" % (kind, cause),
                         "%s: after %s the cached signature %s is not the signature %s of the current content"
                         % (kind, cause, r["raw"], r["fs"]), n))
+        if op == "C" and kind == "MEP" and n > 0 and "fs" in recs[n - 1] and r["fs"] != recs[n - 1]["fs"]:
+            bad.append(("MEP:C:cse-changes-signature",
+                        "MEP: cse() changed the program: from-scratch signature %s before, %s after"
+                        % (recs[n - 1]["fs"], r["fs"]), n))
         if op == "S" and r["ret"] != r["fs"]:
             cause = recs[since]["op"] if since is not None else "S"
             bad.append(("%s:%s:stale-signature" % (kind, cause),
@@ -718,14 +747,13 @@ def shrink(harness, case, key):
 
 def run_harness_resilient(exe, lines, timeout=1800):
     """as prims_common.run_harness_resilient (restart after an abort, mark the
-    line CRASH), but with LeakSanitizer off: i_mep::cse() leaks std::map nodes /
-    small_vector storage (DESIGN section 7 #12/#13, properties C02/C20), which is
-    not what C03 is about and would otherwise be blamed on an unrelated line"""
+    line CRASH).  LeakSanitizer is on: the leak inside i_mep::cse() went away
+    with the comparator fix (3c2805a); a leak reported at exit is attributed to
+    the whole batch (kind CRASH-AT-EXIT on the last line)."""
     out = [None] * len(lines)
     crashes = {}
     start = 0
     env = vv.san_env()
-    env["ASAN_OPTIONS"] = env["ASAN_OPTIONS"].replace("detect_leaks=1", "detect_leaks=0")
     restarts = 0
     while start < len(lines):
         p = subprocess.run([exe], input="\n".join(lines[start:]) + "\n", env=env, timeout=timeout,
@@ -765,8 +793,9 @@ def run(ck):
     ck.assumptions += [
         "A_hash (Section hypothesis of C03_distinct_trees_distinct_signatures): MurmurHash3-128 does not collide on the two "
         "packed streams involved; measured on every pair of distinct streams of this run (a collision would be reported)",
-        "H_cse (hypothesis of the MCse step in C03_cache_never_stale_mep): i_mep::cse() keeps the packed stream of the "
-        "active tree; checked on every cse() of this run by the from-scratch oracle",
+        "sym_id U / typed genome (hypotheses of C03_cse_preserves_pack): opcodes are primary keys, the gene in cell (r, c) "
+        "has category c; cse() is C02's executable model with the byte-order comparator of the +-0.0 fix, executed by the "
+        "model driver itself and compared with the implementation's cse() on every generated call",
         "opcodes < 2^16 and pairwise distinct (symbol::opc_count_), arity and parametric flag determined by the symbol",
         "NaN parameters are outside the model (the shared genome model stores parameters as Flocq BinarySingleNaN values, "
         "one NaN); no shipped terminal::init() yields NaN; generated parameters avoid NaN payloads",
@@ -808,6 +837,8 @@ def run(ck):
             cases.append(gen_team_history(ck, W))
         for _ in range(3000 if T else 250):
             cases.append(gen_mep_related_load(ck, W))
+        for _ in range(1500 if T else 120):
+            cases.append(gen_mep_cse_constants(ck, W))
         for _ in range(1000 if T else 80):
             cases.append(gen_de_related_load(ck))
         for _ in range(10):
@@ -821,6 +852,12 @@ def run(ck):
     allrecs = [None] * len(cases)
     for k, c in enumerate(cases):
         ho = hout[k]
+        if ho is not None and ho.startswith("CRASH-AT-EXIT "):
+            # a report printed when the harness exits (LeakSanitizer): not tied to a line
+            ck.add_violation("sanitizer:at-exit", "the harness run ends with a sanitizer report (leak?)",
+                             {"line": c["line"], "sanitizer": crashes.get(k, "")[-3000:],
+                              "note": "reported at process exit for the whole batch of scenarios"})
+            ho = hout[k] = ho[len("CRASH-AT-EXIT "):]
         if ho is None or ho.startswith("CRASH"):
             ck.count()
             ck.add_violation("%s:sanitizer" % c["kind"], "%s scenario aborts under ASan/UBSan" % c["kind"],
